@@ -63,18 +63,28 @@ Theorem C13_unmatched_attributes_nothing :
   attributed_ids (snd (step s (EResp cmd seq))) = [].
 Proof. exact unmatched_response_attributes_nothing. Qed.
 
+(* a response of another type than the request stored under its number (and not a generic_nack) is not matched with it at all:
+   the state is unchanged, the request stays outstanding for its own response or its time-out (fix: correlator.get() used to take
+   the request out before the type was compared) *)
+Theorem C13_other_type_leaves_request :
+  forall s cmd seq q,
+  fst (pop seq (ms_store s)) = Some q -> cmd <> SmppCommand_GENERIC_NACK ->
+  lookup (rq_cmd q) command_response_map <> Some cmd ->
+  fst (step s (EResp cmd seq)) = s /\ attributed_ids (snd (step s (EResp cmd seq))) = [].
+Proof. exact other_type_leaves_request. Qed.
+
 Theorem C13_no_keyerror : forall s cmd seq, ~ In Crash (snd (step s (EResp cmd seq))).
 Proof. exact no_crash. Qed.
 
 (* non-vacuity: a generator started just below the maximum wraps; duplicate, unknown and wrong-type
-   responses; exactly one attribution *)
+   responses; exactly one attribution; the two requests that only saw responses of another type are still stored *)
 Example C13_nonvacuous :
   wf_gen {| sg_min := 1; sg_max := 2147483647; sg_cur := 2147483646 |}
   /\ ser_run 1 2147483647 2147483646
        [EAssign 4; EPut 0; EAssign 21; EPut 1; EAssign 4; EPut 2;
-        EResp 2147483669 2147483647;   (* enquire_link_resp for the submit_sm's number: wrong type, consumes *)
+        EResp 2147483669 2147483647;   (* enquire_link_resp for the submit_sm's number: wrong type, the request stays outstanding *)
         EResp 2147483652 1;            (* submit_sm_resp for the enquire_link's number: wrong type *)
         EResp 2147483652 2; EResp 2147483652 2;  (* answer + duplicate *)
         EResp 2147483652 77]           (* unknown *)
-     = [1; 2147483652; 2; 2; -1].
+     = [1; 2147483652; 2; 2; -1; 2147483647; 0; 1; 1].
 Proof. split; [unfold wf_gen; cbn; repeat split; discriminate | vm_compute; reflexivity]. Qed.
